@@ -175,7 +175,8 @@ func genLexeme(c *Ctx, kind string) lexeme {
 }
 
 func genWhitespace(c *Ctx) lexeme {
-	ws := []rune{' ', ' ', '\t', '\n', '\r'}
+	// every character from U+0000 to U+0020 is whitespace for both tokenizers
+	ws := []rune{' ', ' ', '\t', '\n', '\r', ' ', '\t', 0x00, 0x01, 0x0b, 0x0c, 0x1b, 0x1f}
 	var sb strings.Builder
 	for i := 1 + c.Rng.Intn(3); i > 0; i-- {
 		sb.WriteRune(pick(c, ws))
